@@ -38,6 +38,8 @@ reg("NeoHooke(bulk=None)", "hand", st.fixed_dictionaries({"mu": fl(0.2, 5)}), en
 reg("NeoHooke(mu=None)", "hand", st.fixed_dictionaries({"bulk": fl(0.5, 50)}), energy=True, mu0=lambda p: 0.0, K0=lambda p: p["bulk"])
 reg("NeoHookeCompressible", "hand", st.fixed_dictionaries({"mu": fl(0.2, 5), "lmbda": fl(0.2, 20)}), energy=True,
     mu0=lambda p: p["mu"], K0=lambda p: p["lmbda"] + 2 / 3 * p["mu"])
+reg("NeoHookeCompressible(lmbda=None)", "hand", st.fixed_dictionaries({"mu": fl(0.2, 5)}), energy=True,
+    mu0=lambda p: p["mu"], K0=lambda p: 2 / 3 * p["mu"])
 reg("Volumetric", "hand", st.fixed_dictionaries({"bulk": fl(0.5, 50)}), energy=True, mu0=lambda p: 0.0, K0=lambda p: p["bulk"])
 reg("LinearElasticLargeStrain", "hand", st.fixed_dictionaries({"E": fl(0.5, 10), "nu": fl(-0.3, 0.45)}), energy=True,
     mu0=lambda p: p["E"] / (2 * (1 + p["nu"])), K0=lambda p: p["E"] / (3 * (1 - 2 * p["nu"])))
@@ -78,6 +80,9 @@ for _n, (_p, _f) in TT.items():
     reg("tt:" + _n, "tensortrax", _p, energy=(_n != "alexander"), fun=_n, **_f)  # alexander: only derivatives are implemented (docstring)
 reg("tt:saint_venant_kirchhoff(k=0)", "tensortrax", st.fixed_dictionaries({"mu": fl(0.3, 3), "lmbda": fl(0.0, 5), "k": st.just(0)}),
     energy=True, fun="saint_venant_kirchhoff", spectral=True, mu0=lambda p: p["mu"], K0=lambda p: p["lmbda"] + 2 / 3 * p["mu"])
+for _k in (1, -1):
+    reg(f"tt:saint_venant_kirchhoff(k={_k})", "tensortrax", st.fixed_dictionaries({"mu": fl(0.3, 3), "lmbda": fl(0.0, 5), "k": st.just(_k)}),
+        energy=True, fun="saint_venant_kirchhoff", spectral=True, mu0=lambda p: p["mu"], K0=lambda p: p["lmbda"] + 2 / 3 * p["mu"])
 reg("tt:saint_venant_kirchhoff_orthotropic", "tensortrax",
     st.fixed_dictionaries({"mu": lst(3, 0.3, 2), "lmbda": st.lists(fl(0.1, 1.5), min_size=6, max_size=6), "rseed": st.integers(0, 10**6)}),
     energy=True, fun="saint_venant_kirchhoff_orthotropic", iso=False, lam=(0.85, 1.3))
@@ -146,6 +151,8 @@ def _build(name, params):
     if e["backend"] == "hand":
         if name.startswith("NeoHooke("):
             return fem.NeoHooke(**p)
+        if name == "NeoHookeCompressible(lmbda=None)":
+            return fem.NeoHookeCompressible(mu=p["mu"])
         if name == "OgdenRoxburgh(NeoHooke)":
             return fem.OgdenRoxburgh(fem.NeoHooke(mu=p["mu"], bulk=p["bulk"]), r=p["r"], m=p["m"], beta=p["beta"])
         return getattr(fem, name)(**p)
